@@ -210,6 +210,71 @@ def _copy_root(f, operand, depth=0):
     return ("local", l)
 
 
+def _ptr_root(f, op, depth=0):
+    """The pointer local a slice operand is a (re)borrow of: `&(*p)` / `&mut (*p)` / copies of it -> p."""
+    pl = core.op_place(op)
+    if pl is None or depth > 8:
+        return None
+    if pl["proj"]:
+        return pl["local"] if [e["k"] for e in pl["proj"]] == ["deref"] else None
+    dd = [d for d in f.defs_of(pl["local"]) if not f.blocks[d[0]]["cleanup"]]
+    if len(dd) != 1 or dd[0][1] == "term" or dd[0][2]["k"] != "assign":
+        return pl["local"]
+    rv = dd[0][2]["rv"]
+    if rv["k"] in ("ref", "rawptr") and [e["k"] for e in rv["place"]["proj"]] == ["deref"]:
+        return _ptr_root(f, {"k": "copy", "place": {"local": rv["place"]["local"], "proj": []}}, depth + 1)
+    if rv["k"] == "use" and core.op_place(rv["op"]) is not None and not core.op_place(rv["op"])["proj"]:
+        return _ptr_root(f, rv["op"], depth + 1)
+    return pl["local"]
+
+
+def _suffix_span(an, f, st, slice_op, mid_op):
+    """`split_at(x, x.len() - K)`: if the split point is defined (through copies and the `.0` of a checked /
+    overflow-asserted subtraction) as the length of the very slice being split minus K, return the interval of K."""
+    xo = _ptr_root(f, slice_op)
+    if xo is None:
+        return None
+    cur = mid_op
+    for _ in range(8):
+        pl = core.op_place(cur)
+        if pl is None:
+            return None
+        dd = [d for d in f.defs_of(pl["local"]) if not f.blocks[d[0]]["cleanup"]]
+        if len(dd) != 1 or dd[0][1] == "term" or dd[0][2]["k"] != "assign":
+            return None
+        r2 = dd[0][2]["rv"]
+        if r2["k"] == "use":
+            cur = r2["op"]
+            continue
+        if r2["k"] == "binop" and r2["op"] in ("SubWithOverflow", "Sub"):
+            a, b_ = r2["a"], r2["b"]
+            # a must be `len(&*x)` of the same owner
+            ca = a
+            for _ in range(4):
+                pa = core.op_place(ca)
+                if pa is None:
+                    return None
+                da = [d for d in f.defs_of(pa["local"]) if not f.blocks[d[0]]["cleanup"]]
+                if len(da) != 1:
+                    return None
+                if da[0][1] == "term":
+                    t = da[0][2]
+                    if core.strip_generics(core.callee_path(t) or "") in ("core::slice::len",) and _ptr_root(f, t["args"][0]) == xo:
+                        return an.op_iv(f, st, b_)
+                    return None
+                if da[0][2]["k"] == "assign" and da[0][2]["rv"]["k"] == "use":
+                    ca = da[0][2]["rv"]["op"]
+                    continue
+                if da[0][2]["k"] == "assign" and da[0][2]["rv"]["k"] == "unop" and da[0][2]["rv"]["op"] == "PtrMetadata":
+                    if _ptr_root(f, da[0][2]["rv"]["a"]) == xo:
+                        return an.op_iv(f, st, b_)
+                    return None
+                return None
+            return None
+        return None
+    return None
+
+
 def _range_span(an, f, st, o):
     """If the range operand is `X .. X + L` (also `X .. X.checked_add(L)?`) return (True, interval of L or
     None): the range is ordered by construction (the addition is checked) and its span is exactly L,
@@ -581,6 +646,11 @@ def _len_model(an, f, st, t, c, argiv):
         return {}, (proved, "copy-len", "dst=%s src=%s" % (a, b_)), []
     if name in ("core::slice::split_at", "core::slice::split_at_mut") and len(args) == 2:
         mid = argiv[1]
+        suf = _suffix_span(an, f, st, args[0], args[1])
+        if suf is not None:
+            # mid = len(x) - K with a checked subtraction: mid <= len(x) by construction and the suffix holds exactly K elements
+            pre = (max(L0[0] - suf[1], 0), max(L0[1] - suf[0], 0)) if L0 is not None else (0, SLICE_LEN_MAX)
+            return {("0", "#len"): pre, ("1", "#len"): suf}, (True, "split", "mid = len - %s (checked subtraction)" % (suf,)), []
         if L0 is not None and mid is not None:
             proved = mid[1] <= L0[0]
             return {("0", "#len"): mid, ("1", "#len"): (max(L0[0] - mid[1], 0), max(L0[1] - mid[0], 0))}, (proved, "split", "mid=%s len=%s" % (mid, L0)), []
